@@ -659,6 +659,6 @@ def analyse_forwarder(name: str, target: str) -> dict:
     ok = False
     if len(log) == 1 and len(log[0]) == 5 and len(p) >= 3:
         _s, ctx, dflt, arg, act = log[0]
-        ok = ctx == ("param", p[1]) and arg == ("param", p[2]) and act[0] == "bound" and act[1] == ("attr", selft, "ast_builder") \
+        ok = ctx == ("param", p[1]) and arg == ("param", p[2]) and act[0] == "bound" and act[1] == ("attr", selft, N.PARSER_BUILDER) \
             and act[2].endswith("." + target) and not [n for n, c in nf.iter_nodes(tree) if n[0] == "ev" and nf.guards_in_ctx(c)]
     return {"fi": fi, "ok": ok, "found": [[fmt(a, I) for a in x[1:]] for x in log]}
